@@ -408,6 +408,43 @@ theorem C13_gen_copy_table :
     Gen.C13.copyCreate.map (fun t => copyKindOfString t.2.2)
       = [copyKinds.1, copyKinds.2.1, copyKinds.2.2] := by decide
 
+def accessKindOf (fieldKind how : String) : AccessKind :=
+  if fieldKind = "mutable" then (if how = "copy" then .copy else .plain) else .frozen
+
+/-- Kind of the accessor `cls.acc` according to the regenerated tables (`plain` if it is missing). -/
+def genAccess (cls acc : String) : AccessKind :=
+  match Gen.C13.accessors.find? (fun t => t.1 == cls && t.2.1 == acc) with
+  | none => .plain
+  | some t =>
+    match Gen.C13.fieldKinds.find? (fun k => k.1 == cls && k.2.1 == t.2.2.1) with
+    | none => .plain
+    | some k => accessKindOf k.2.2 t.2.2.2
+
+/-- Accessors.  `Location` and `Feature` objects are shared between an annotation and its copies
+(`Annotation.copy()` builds a new set of the *same* features), so no property or `get_*` method of
+`Location`, `Feature` or `Annotation` may hand out an internal `dict`/`set`/`list`: every accessor
+of an attribute that `__init__` builds as a mutable container returns a copy; and the three
+accessors the model uses have exactly the kinds the model assumes. -/
+theorem C13_gen_accessors :
+    (∀ t ∈ Gen.C13.accessors, t.1 ∈ ["Location", "Feature", "Annotation"] →
+        genAccess t.1 t.2.1 ≠ .plain) ∧
+    genAccess "Feature" "qual" = qualAccess ∧ genAccess "Feature" "locs" = locsAccess ∧
+    genAccess "Annotation" "get_features" = featuresAccess ∧
+    (∀ t ∈ Gen.C13.accessors, t.1 = "AnnotatedSequence" →
+        t.2.2.1 ∈ Gen.C13.copyCreate.map (·.1)) := by decide
+
+/-- With these accessor kinds, editing whatever `feature.qual`, `feature.locs` or
+`annotation.get_features()` handed out changes nothing: neither the object it came from (so the
+hash of a feature inside a set is stable) nor — a fortiori — any copy sharing that feature. -/
+theorem C13_accessor_edits_isolated (a : Annot) (q : Nat) :
+    a.map (mutQualThrough qualAccess q) = a ∧ clearThrough featuresAccess a = a ∧
+    a.map (clearLocsThrough locsAccess) = a := by
+  refine ⟨?_, rfl, ?_⟩
+  · have : mutQualThrough qualAccess q = id := by funext f; rfl
+    rw [this, List.map_id]
+  · have : clearLocsThrough locsAccess = id := by funext f; rfl
+    rw [this, List.map_id]
+
 /-- Flag values printed by the protocol are the `Flag` values of the source, and the flag
 rewiring of `reverse_complement` is the involutive `Defect.mirror` of the model. -/
 theorem C13_gen_defect_flags :
@@ -463,6 +500,8 @@ example : True := by
 example : True := by
   have := C13_slice_pairing exSeq (some 6) none (by decide) 6 15 rfl (by decide) (by decide) (by decide) (by decide)
   trivial
+-- an accessor handing out the internal dictionary (seeded change C13-13) would let an edit through
+example : mutQualThrough .plain 9 ⟨0, 1, [exLoc]⟩ ≠ ⟨0, 1, [exLoc]⟩ := by decide
 -- the heap copy is usable and fresh
 example : ((Heap.mk [[]] [[0, 1]]).copyObj copyKinds ⟨0, 0, 1⟩).map (·.2) = some ⟨1, 1, 1⟩ := by decide
 -- … and with the bound-method table of the unrepaired code there is no usable copy
